@@ -5,7 +5,7 @@
    comparison inside Coq on every generated export x option set, and C12_refinement proves that the transcription computes the
    specification for EVERY document and option set, refusals and their reasons included. *)
 From Coq Require Import List ZArith Lia Bool Arith String.
-Require Import Json CdeThms CdeSpec CdeRefine.
+Require Import Json CdeThms CdeSpec CdeRefine CdeConsistent.
 Import ListNotations.
 Open Scope nat_scope.
 
@@ -52,9 +52,21 @@ Theorem C12_refuse_version : forall data tr ic ia a b, get "kind" data = Some (J
   get "EVENT_SCHEMA_VERSION" data = Some (JArr [JInt a; JInt b]) -> (a < 7 \/ 19 < a)%Z -> exists code, read_full data tr ic ia = RErr code.
 Proof. exact refuse_version. Qed.
 
-Check C12_refinement. Check C12_participants. Check C12_participants_order. Check C12_kept. Check C12_penalty_position. Check C12_courses. Check C12_instructors.
+(* the problem built from an export is consistent by construction: every choice names a course of the problem, every instructor index a
+   participant of the problem, 0 <= min <= max after the adaptation for ignored attendees, nobody is instructor twice -- so
+   check_data_consistency never refuses what the CdE reader returns (C15) and the index clauses of validity hold (C10) *)
+Theorem C12_consistent : forall data track ign_c ign_a ff of ps cs amb,
+  read_fields data track ign_c ign_a ff of = ROk (ps, cs, amb) ->
+  (forall p c pen, In p ps -> In (c, pen) (rp_choices p) -> c < List.length cs) /\
+  (forall c i, In c cs -> In i (rc_instr c) -> i < List.length ps) /\
+  (forall c, In c cs -> (0 <= rc_min c <= rc_max c)%Z) /\
+  NoDup (flat_map rc_instr cs).
+Proof. intros data track ign_c ign_a ff of ps cs amb H. rewrite read_fields_refines_spec in H. apply (spec_read_consistent _ _ _ _ _ _ _ _ _ H). Qed.
+
+Check C12_consistent. Check C12_refinement. Check C12_participants. Check C12_participants_order. Check C12_kept. Check C12_penalty_position. Check C12_courses. Check C12_instructors.
 Check C12_limits. Check C12_refuse_kind. Check C12_refuse_version.
 Print Assumptions C12_refinement.
+Print Assumptions C12_consistent.
 Print Assumptions C12_participants.
 Print Assumptions C12_kept.
 Print Assumptions C12_penalty_position.
